@@ -8,7 +8,7 @@
    dropped only by a watcher that has itself terminated) is not a separate theorem: concrete executions of each case
    (parent that also watches, late watch of a terminating actor, watch of an address that never existed, non-watchers)
    and, on every run, the lockstep correspondence and the monitor C06:missing-notification. *)
-From MV Require Import Lib.ListX Kernel.Model Kernel.Run Kernel.Lifecycle Kernel.Registry Kernel.Watch Kernel.Notice Kernel.Fanout.
+From MV Require Import Lib.ListX Kernel.Model Kernel.Run Kernel.Lifecycle Kernel.Registry Kernel.Watch Kernel.Notice Kernel.Fanout Kernel.WatchTable.
 Open Scope Z_scope.
 
 Definition count_to (observer who : ref) (os : list (list obs)) : nat :=
@@ -75,6 +75,38 @@ Print Assumptions C06_terminated_is_silent_partial.
 Definition c06_roles : list role :=
   [ {| victim := None; sup := [DStop]; rules := [ {| r_on := KL; r_n := -1; r_inst := -1; r_do := [ASpawn 1 1; ASpawn 2 1; AWatch 1; AWatch 9] |} ] |};
     {| victim := None; sup := []; rules := [] |} ].
+(* "every actor that has watched it and NOT UNWATCHED it": the watcher table — the set of addresses the terminating step
+   notifies (C06_termination_notifies_every_watcher) — is a function of the watch / unwatch requests the object has taken out of
+   its mailbox, and of nothing else. For every role table, from ANY state, for EVERY label and EVERY object: after the step its
+   table is [next_table] of the table before — unchanged unless the step is that object's own run of a Watch request (from
+   somebody other than its parent, while it is not yet terminating: the sender is inserted; otherwise the request is answered
+   at once or ignored) or of an Unwatch request (while it is not terminated: the sender is removed). Nothing else — a send, a
+   spawn, a failure, a restart of the object (the table survives it), anybody else's termination, a decision — touches it, and
+   a request changes the table of its receiver only. Requests travel in the target's system queue (FIFO), so an Unwatch issued
+   after a Watch by the same watcher is processed after it. *)
+Theorem C06_watcher_table_follows_requests : forall roles s l s' o v b,
+  kstep roles s l = Some (s', o) -> get s v = Some b ->
+  exists b', get s' v = Some b' /\ a_watchers b' = next_table l v b.
+Proof. exact watch_table_step. Qed.
+Print Assumptions C06_watcher_table_follows_requests.
+
+(* non-vacuity: actor 2 watches 1, then unwatches it; the table of 1 (object 3) is [] -> [2] -> [] exactly at the two steps in
+   which object 3 runs the requests, and the later termination of 1 notifies its parent 0 only *)
+Definition c06_uw_roles : list role :=
+  [ {| victim := None; sup := [DStop]; rules := [ {| r_on := KL; r_n := -1; r_inst := -1; r_do := [ASpawn 1 1; ASpawn 2 2] |} ] |};
+    {| victim := None; sup := []; rules := [] |};
+    {| victim := None; sup := []; rules := [ {| r_on := KP; r_n := 0; r_inst := -1; r_do := [AWatch 1] |}; {| r_on := KP; r_n := 1; r_inst := -1; r_do := [AUnwatch 1] |} ] |} ].
+Example C06_watch_then_unwatch_example :
+  let tbl := fun ls => match krun c06_uw_roles kinit ls with Some (s, _) => option_map a_watchers (get s 3%nat) | None => None end in
+  let pre := [LSpawn 0 0; LRun 2; LRun 3; LRun 4; LTell 2 0; LRun 4] in
+  tbl pre = Some [] /\ tbl (pre ++ [LRun 3]) = Some [2] /\
+  tbl (pre ++ [LRun 3; LTell 2 1; LRun 4]) = Some [2] /\ tbl (pre ++ [LRun 3; LTell 2 1; LRun 4; LRun 3]) = Some [] /\
+  match krun c06_uw_roles kinit (pre ++ [LRun 3; LTell 2 1; LRun 4; LRun 3; LTerm 1 false; LRun 3; LRun 2]) with
+  | Some (_, os) => count_to 0 1 os = 1%nat /\ count_to 2 1 os = 0%nat
+  | None => False
+  end.
+Proof. vm_compute. repeat split; reflexivity. Qed.
+
 (* the premises are met: in the run of C06_example below, the step in which actor 1 (uid 3, watched by its parent 0 — whose
    watch is ignored, the parent is notified anyway) terminates puts the notice into the mailbox of 0 (uid 2) *)
 Example C06_fanout_example :
